@@ -132,6 +132,19 @@ func raceLogSize() (int64, string) {
 	return st.Size(), name
 }
 
+// c14Replay runs exactly one recorded schedule of a scenario.
+func c14Replay(c *core.Ctx, si int, plan []int) {
+	fixedPlan = append([]int{}, plan...)
+	useFixed = true
+	defer func() { useFixed = false }()
+	c14Scenario1(c, si, c14Scenarios[si], 0)
+}
+
+var (
+	fixedPlan []int
+	useFixed  bool
+)
+
 func c14Scenario1(c *core.Ctx, si int, sc c14Scenario, bound int) {
 	n := len(sc.Threads)
 	// sequential results of every call on its thread's tape, each thread on
@@ -179,6 +192,9 @@ func c14Scenario1(c *core.Ctx, si int, sc c14Scenario, bound int) {
 			break
 		}
 		plan := append([]int{}, ch.Prefix()...)
+		if useFixed {
+			plan = fixedPlan
+		}
 		x = newC14Shared()
 		for i := range tapes {
 			tapes[i] = mkTape(i)
@@ -186,6 +202,9 @@ func c14Scenario1(c *core.Ctx, si int, sc c14Scenario, bound int) {
 		}
 		tr := sched.Run(bodies, plan)
 		ch.SetTrace(tr.Taken, tr.Menus)
+		if useFixed {
+			ch.Bound = 0 // one execution only
+		}
 		c.Count("executions", 1)
 		c.Max("max_points_per_schedule", int64(len(tr.Taken)))
 		c.Max("max_switches", int64(tr.Switches))
@@ -323,6 +342,14 @@ func init() {
 			Plan     []int `json:"plan"`
 		}
 		json.Unmarshal(raw, &rp)
-		return fmt.Sprintf("scenario %d plan %v: re-run `./run C14 quick` (schedules need the instrumented -race build)", rp.Scenario, rp.Plan), true
+		if verifrtMissing() {
+			return "C14 replays need the instrumented -race worker (use ./run C14 quick --replay <file>)", false
+		}
+		verifrt.PointHook = sched.Point
+		vsync.BlockHook = sched.Block
+		vsync.UnblockHook = sched.Unblock
+		c := &core.Ctx{ID: "C14", Tier: "quick", NShards: 1}
+		c14Replay(c, rp.Scenario, rp.Plan)
+		return fmt.Sprintf("scenario %q schedule %v: %d violation(s) %v", c14Scenarios[rp.Scenario].Name, rp.Plan, c.R.NViol, c.R.Violations), c.R.NViol > 0
 	}
 }
